@@ -13,7 +13,7 @@ func init() {
 		ID:          "C08",
 		Explanation: "(R8.1) no certificate line is added to the clause set unless the reverse-unit-propagation test on that very line succeeded; (R8.2) every function that checks a certificate re-initialises the tags and defers the restoration of the clause set before doing anything else; (R8.3) the RUP test saves the unit bindings before its first write and stores them back on every path to return; (R8.4) every clause used for a propagation or a conflict is tagged (the unsatisfiable subset is read from the tags); (R8.5) the reader-based and the channel-based entry points perform the same per-line steps.",
 		NotDecided:  "that the naive propagation loop computes exactly unit propagation to fixpoint, and the behaviour of the checker on every certificate.",
-		Rules:       []ruleFn{ruleR8_1, ruleR8_2, ruleR8_3, ruleR8_4, ruleR8_5},
+		Rules:       []ruleFn{ruleR8_1, ruleR8_2, ruleR8_3, ruleR8_4, ruleR8_5, ruleR8_6},
 	})
 }
 
@@ -507,4 +507,98 @@ func ruleR8_5(w *World, r *Report) {
 			r.OK("R8.5", key, w.Pos(other.Pos()), joinSorted(base))
 		}
 	}
+}
+
+// R8.6: unit clauses are pre-tagged. The reader binds the literal of every unit clause into units while parsing,
+// so the propagation loop sees unit clauses as already satisfied and never tags them; the tag initialiser must
+// therefore tag them itself, or the extracted subset silently loses every unit clause it depends on.
+func ruleR8_6(w *World, r *Report) {
+	r.Rule("R8.6", "because the DIMACS reader of package explain pre-binds unit clauses, the tag initialiser marks every clause of length 1 as used, in a loop over all clauses", 1)
+	// does the parser pre-bind? a function of package explain that appends to Clauses and stores into units[...]
+	prebinds := false
+	for _, fn := range w.Fns {
+		if w.PkgName(fn) != "explain" {
+			continue
+		}
+		grows, binds := false, false
+		for _, gs := range growthSites(fn) {
+			if gs.Field == "explain.Problem.Clauses" {
+				grows = true
+			}
+		}
+		allInstrs(fn, func(ins ssa.Instruction) {
+			if st, ok := ins.(*ssa.Store); ok {
+				if ia, ok := st.Addr.(*ssa.IndexAddr); ok {
+					if _, ok := isFieldLoad(ia.X, "explain.Problem", "units"); ok {
+						binds = true
+					}
+				}
+			}
+		})
+		if grows && binds && rupTest(w) != nil && !w.Reachable(fn)[rupTest(w)] {
+			prebinds = true
+		}
+	}
+	var init *ssa.Function
+	for _, fn := range w.Fns {
+		if w.PkgName(fn) == "explain" && isTagInit(fn) {
+			init = fn
+		}
+	}
+	if init == nil {
+		r.Unk("R8.6", "tag initialiser", "-", "no function of package explain allocates Problem.tagged")
+		return
+	}
+	key := w.FuncName(init) + " pre-tags unit clauses"
+	if !prebinds {
+		r.OK("R8.6", key, w.Pos(init.Pos()), "the reader does not pre-bind unit clauses: nothing to pre-tag")
+		return
+	}
+	ok := false
+	allInstrs(init, func(ins ssa.Instruction) {
+		st, isSt := ins.(*ssa.Store)
+		if !isSt {
+			return
+		}
+		ia, isIA := st.Addr.(*ssa.IndexAddr)
+		if !isIA {
+			return
+		}
+		if _, isF := isFieldLoad(ia.X, "explain.Problem", "tagged"); !isF {
+			return
+		}
+		// value: len(Clauses[i]) == 1 with the same i, i over the full range of Clauses
+		bo, isB := st.Val.(*ssa.BinOp)
+		if !isB || bo.Op != token.EQL {
+			return
+		}
+		if k, isK := constInt(bo.Y); !isK || k != 1 {
+			return
+		}
+		lenCall, isC := bo.X.(*ssa.Call)
+		if !isC {
+			return
+		}
+		if b, isBu := lenCall.Call.Value.(*ssa.Builtin); !isBu || b.Name() != "len" {
+			return
+		}
+		ld, isL := lenCall.Call.Args[0].(*ssa.UnOp)
+		if !isL || ld.Op != token.MUL {
+			return
+		}
+		ia2, isIA2 := ld.X.(*ssa.IndexAddr)
+		if !isIA2 || ia2.Index != ia.Index {
+			return
+		}
+		if _, isF := isFieldLoad(ia2.X, "explain.Problem", "Clauses"); !isF {
+			return
+		}
+		if fullRangeIndex(ia.Index, func(b ssa.Value) bool {
+			return isLenOf(b, func(x ssa.Value) bool { _, ok := isFieldLoad(x, "explain.Problem", "Clauses"); return ok })
+		}) {
+			ok = true
+		}
+	})
+	r.Check(ok, "R8.6", key, w.Pos(init.Pos()), "tagged[i] = len(Clauses[i]) == 1 for every clause",
+		"unit clauses are not marked as used although the reader pre-binds them (propagation never tags a clause it sees as satisfied): the unsatisfiable subset can lack a unit clause it needs and be satisfiable")
 }
